@@ -123,7 +123,7 @@ fn c18_status_from_str_6() {
     status_from_str::<6>()
 }
 
-// @h props=C18 tier=quick t=120 expect=fail sub=twin
+// @h props=C18 tier=quick t=900 expect=fail sub=twin
 // @fn wtransport-proto/src/ids.rs StatusCode::try_from<u16>
 // @bound twin: claims no status above 299 is accepted; must be refuted
 #[kani::proof]
